@@ -1,18 +1,235 @@
-(* C13/Properties.v — the property theorems of C13, and nothing else. *)
-From Coq Require Import NArith List Bool.
-From Morfuse Require Import C13.Model C13.Spec.
+(* C13/Properties.v — the property theorems of C13, and nothing else.
+   Every theorem is closed by [exact <lemma>] and followed by Print Assumptions.
+
+   Vocabulary.  [Dinv sc cl s] (C13/ProofsInv.v) is the structural invariant of the pools, valid
+   at EVERY moment of an execution, also in the middle of a cascade of destructors: no id twice
+   in a pool, every thread whose destructor has not begun has a VM that is not destroyed and an
+   instance that exists, the thread chain of an instance holds exactly its threads, timer
+   elements / wait-for and notify entries only name pooled threads and are mutually consistent, a
+   VM without a thread is a destroyed one; [sc t] / [cl t] are the script and the instance thread
+   t was created for.  [Clean s] (C13/ProofsReset.v): no destructor is in progress (the states
+   between two steps of the C++ call stack: threads running, waiting, or in the middle of a call
+   at any nesting depth of thread / waitthread).  [tlog], [vlog], [clog] are the model's record
+   of every destruction; ids are never reused, the flag [ub] records any second destruction of an
+   object and any use of a destroyed one. *)
+From Coq Require Import NArith List Bool Permutation.
+From Morfuse Require Import C13.Model C13.Spec C13.ProofsLib C13.ProofsInv C13.ProofsKill C13.ProofsEvo C13.ProofsReset C13.ProofsStep C13.ProofsRun.
 Import ListNotations.
 Local Open Scope N_scope.
 
+(* Deleting a thread - with everything the C++ destructors cascade into: the thread it waited
+   for is deleted with it (recursively), the thread that waited for its end becomes due, its
+   instance is destroyed with its last thread - keeps the structural invariant, never touches a
+   destroyed object nor destroys one twice ([ub] unchanged), never runs out of fuel, removes the
+   thread from the pool, only removes threads of the same script, and conserves pool + log. *)
+Theorem C13_deleting_a_thread_destroys_each_object_once :
+  forall sc cl f t s,
+    Dinv sc cl s -> healthy s t -> anc cl s t -> (4 * hcount s + 4 <= f)%nat ->
+    DTpost sc cl t s (delete_thread f t s).
+Proof. exact delete_thread_ok. Qed.
+Print Assumptions C13_deleting_a_thread_destroys_each_object_once.
+
+(* Destroying an instance (~ScriptClass: unlink, detach every VM, delete every thread that
+   still exists, Free) in a state without a destructor in progress. *)
+Theorem C13_destroying_an_instance_destroys_its_threads_once :
+  forall sc cl c s f,
+    Dinv sc cl s -> allh s -> In c (cpool s) -> (4 * hcount s + 5 <= f)%nat ->
+    Dinv sc cl (destroy_class f c s) /\ allh (destroy_class f c s) /\
+    Evo (fun x => sc x = c_script (clsof s c) /\ c <= cl x)
+        (fun c' => c <= c' /\ c_script (clsof s c') = c_script (clsof s c)) s (destroy_class f c s) /\
+    ~ In c (cpool (destroy_class f c s)) /\
+    (forall t, In t (tpool s) -> v_class (vmof s t) = Some c -> ~ In t (tpool (destroy_class f c s))).
+Proof. exact destroy_class_ok. Qed.
+Print Assumptions C13_destroying_an_instance_destroys_its_threads_once.
+
+(* Reset means clean.  On EVERY state of the invariant - threads running, waiting, mid-call at
+   any depth - ClearAll leaves no instance, no thread, no chain link, no timer element, no
+   program and no current thread; the only VMs left are destroyed ones (they are executing on
+   the C++ stack and free themselves at the tail of ScriptVM::Execute); the invariant holds
+   again; [Evo]: no flag was raised (nothing destroyed twice, nothing used after destruction,
+   no fuel exhausted) and [ev_log]: pool + log is conserved, i.e. every thread, VM and instance
+   that left its pool is in the log exactly once more. *)
+Theorem C13_reset_destroys_everything_once :
+  forall sc cl s,
+    Dinv sc cl s -> Clean s ->
+    Dinv sc cl (reset s) /\ Clean (reset s) /\
+    cpool (reset s) = [] /\ tpool (reset s) = [] /\ chain (reset s) = [] /\ elems (reset s) = [] /\ scripts (reset s) = [] /\
+    cur (reset s) = None /\
+    (forall v, In v (vpool (reset s)) -> v_state (vmof (reset s) v) = VDestroyed) /\
+    Evo (fun _ => True) (fun _ => True) s (free_all (S (length (cpool s))) s).
+Proof. exact reset_ok. Qed.
+Print Assumptions C13_reset_destroys_everything_once.
+
+(* Idle means empty: no instance => no thread, no chain link, no pending timer, no current
+   thread, and only destroyed (still executing) VMs. *)
+Theorem C13_no_instance_means_nothing_left :
+  forall sc cl s,
+    Dinv sc cl s -> Clean s -> cpool s = [] ->
+    tpool s = [] /\ chain s = [] /\ elems s = [] /\ cur s = None /\
+    (forall v, In v (vpool s) -> v_state (vmof s v) = VDestroyed).
+Proof. exact empty_means_empty. Qed.
+Print Assumptions C13_no_instance_means_nothing_left.
+
+(* Recompiling a script destroys exactly the instances that were running the old version: an
+   instance survives iff it runs another script, a thread survives iff its instance runs another
+   script, the survivors' thread and VM records are untouched (no wake-up crosses scripts), the
+   program table holds the script again, pool + log is conserved. *)
+Theorem C13_recompile_destroys_exactly_the_old_instances :
+  forall sc cl k s,
+    Dinv sc cl s -> Clean s -> In k (scripts s) ->
+    Dinv sc cl (recompile k s) /\ Clean (recompile k s) /\
+    (forall c, In c (cpool (recompile k s)) <-> In c (cpool s) /\ c_script (clsof s c) <> k) /\
+    (forall t, In t (tpool (recompile k s)) <-> In t (tpool s) /\ script_of s t <> Some k) /\
+    (forall t, In t (tpool (recompile k s)) -> th (recompile k s) t = th s t /\ vmof (recompile k s) t = vmof s t) /\
+    (forall c, In c (cpool (recompile k s)) -> c_script (clsof (recompile k s) c) = c_script (clsof s c)) /\
+    scripts (recompile k s) = remove k (scripts s) ++ [k] /\
+    Lcons s (recompile k s).
+Proof. exact recompile_ok. Qed.
+Print Assumptions C13_recompile_destroys_exactly_the_old_instances.
+
+(* [Good sc cl s] (C13/ProofsStep.v): the structural invariant, no destructor in progress, all ids
+   below the allocation counter, every pooled thread whose VM is not parked has a frame on the
+   C++ stack, every VM without a thread has one, no error flag.
+
+   Every step of the C++ call stack - an instruction of the running thread (println, wait,
+   thread, waitthread, host_reset, host_recompile, end), the tail of ScriptVM::Execute, the
+   epilogue of ScriptExecuteInternal, an iteration of ExecuteRunning - that raises no error flag
+   leads from a good state to a good state: in particular a Reset / recompile issued from inside
+   a host command acts on a good state (threads running, waiting, mid-call at any nesting depth)
+   and leaves a good state in which the callers' destroyed VMs still have their frames. *)
+Theorem C13_every_step_keeps_the_invariant :
+  forall sc cl s,
+    Good sc cl s -> ub (step s) = false -> oof (step s) = false ->
+    exists sc' cl', Good sc' cl' (step s).
+Proof. exact step_good. Qed.
+Print Assumptions C13_every_step_keeps_the_invariant.
+
+Theorem C13_every_host_operation_keeps_the_invariant :
+  forall sc cl s o,
+    Good sc cl s -> stack s = [] -> unflagged (host_step s o) ->
+    exists sc' cl', Good sc' cl' (host_step s o) /\ stack (host_step s o) = [].
+Proof. exact host_step_good. Qed.
+Print Assumptions C13_every_host_operation_keeps_the_invariant.
+
+Theorem C13_every_error_free_history_reaches_a_good_state :
+  forall ops sc cl s,
+    Good sc cl s -> stack s = [] -> unflagged (fold_left host_step ops s) ->
+    exists sc' cl', Good sc' cl' (fold_left host_step ops s) /\ stack (fold_left host_step ops s) = [].
+Proof. exact reach_good. Qed.
+Print Assumptions C13_every_error_free_history_reaches_a_good_state.
+
+(* Idle means empty, suspended means busy.  For EVERY history of thread starts (any program of
+   println / wait / thread / waitthread / host_reset / host_recompile / pause / level.r<k> = local /
+   level.r<k> wait|waitframe|pause applied to another thread, any nesting), clock
+   advances, frames, Resets, recompiles and the destruction of the context, every observation
+   the host makes between two operations that carries no error flag satisfies:
+   as many VMs as threads; no instance => no thread, no timer element, idle;
+   a thread exists => not idle; idle => no timer element; never more timer elements than threads.
+   (_partial: that no observation ever carries an error flag - the model's [ub] = a destroyed
+   object used or destroyed twice, [oof] = a loop out of fuel - is proved for the destructors
+   (C13_deleting_a_thread_..., C13_destroying_an_instance_..., C13_reset_..., C13_recompile_...
+   include it) but not for the step loop as a whole: it is sampled, see the evidence.) *)
+Theorem C13_idle_means_empty_and_threads_mean_busy_partial :
+  forall ops, Forall
+    (fun ob => err ob = O ->
+       nvm ob = nthr ob /\
+       (ncls ob = O -> nthr ob = O /\ ntmr ob = O /\ idle ob = true) /\
+       (nthr ob <> O -> idle ob = false) /\
+       (idle ob = true -> ntmr ob = O) /\
+       (ntmr ob <= nthr ob)%nat)
+    (run ops).
+Proof. exact run_ok. Qed.
+Print Assumptions C13_idle_means_empty_and_threads_mean_busy_partial.
+
+(* Reset between two frames, in any good state: the host observes a new engine (no instance,
+   thread, VM, program, timer; idle; no error). *)
+Theorem C13_after_a_reset_the_host_observes_a_new_engine :
+  forall sc cl s,
+    Good sc cl s -> stack s = [] ->
+    let ob := observe (host_step s OReset) in
+    ncls ob = O /\ nthr ob = O /\ nvm ob = O /\ nscr ob = O /\ ntmr ob = O /\ idle ob = true /\ err ob = O.
+Proof. exact reset_observed. Qed.
+Print Assumptions C13_after_a_reset_the_host_observes_a_new_engine.
+
+(* A thread has at most one timer element.  In every good state - hence, by the theorems above,
+   after every error-free step and in every state an error-free history reaches, whatever
+   timing commands (wait, waitframe, pause) threads applied to themselves or, through a stored
+   reference, to threads that were running mid-call, parked in a timed wait, waiting for a
+   waitthread callee, paused or already ended - the timer elements name pairwise distinct pooled
+   threads whose destructor has not begun and which are in state Timing. *)
+Theorem C13_every_timer_element_is_a_distinct_live_timing_thread :
+  forall sc cl s,
+    Good sc cl s ->
+    NoDup (map fst (elems s)) /\
+    forall e, In e (elems s) -> In (fst e) (tpool s) /\ t_vm (th s (fst e)) = true /\ t_state (th s (fst e)) = TTiming.
+Proof. exact timer_elements_ok. Qed.
+Print Assumptions C13_every_timer_element_is_a_distinct_live_timing_thread.
+
+Theorem C13_timer_elements_of_every_error_free_history :
+  forall ops sc cl s,
+    Good sc cl s -> stack s = [] -> unflagged (fold_left host_step ops s) ->
+    let s' := fold_left host_step ops s in
+    NoDup (map fst (elems s')) /\
+    forall e, In e (elems s') -> In (fst e) (tpool s') /\ t_vm (th s' (fst e)) = true /\ t_state (th s' (fst e)) = TTiming.
+Proof. exact timer_elements_reachable. Qed.
+Print Assumptions C13_timer_elements_of_every_error_free_history.
+
+(* ScriptThread::Stop / Wait / Pause applied to ANY whole thread of a good state (by itself or by
+   another thread) raise no error flag and leave a good state; after Stop the thread is in no
+   timer and waits for nobody (the thread it waited for has been deleted with its cascade). *)
+Theorem C13_a_timing_command_on_any_thread_keeps_the_invariant :
+  forall sc cl s b d,
+    Good sc cl s -> healthy s b -> Good sc cl (wait_on b d s) /\ Good sc cl (pause_on b s).
+Proof. intros sc cl s b d G Hb. split; [exact (good_wait_on sc cl s b d G Hb)|exact (good_pause_on sc cl s b G Hb)]. Qed.
+Print Assumptions C13_a_timing_command_on_any_thread_keeps_the_invariant.
+
+(* Not proved (full statement): forall ops, run ops = spec_run ops - the model (pools, VM state
+   machine, chains, weak references, destructor cascades) observes what the abstract resource
+   semantics of C13/Spec.v observes.  The two are compared on every generated case by the check
+   (lines `m` against `s`); the abstraction function and its lemmas for the elementary updates
+   are in C13/ProofsLib.v and C13/ProofsAbs.v. *)
+
+(* Non-vacuity.  Script 0 waits 5 ms; script 1 calls waitthread twice nested and the innermost
+   callee resets the engine from a host command (its two callers are suspended inside their own
+   Execute): nothing is left, the rest of no program runs; script 2 then compiles and runs as on
+   a new engine.  Shown per host op: prints, idle, instances, threads, VMs, programs, timer, error. *)
 Example C13_history_example :
-  map (fun o => (prints o, idle o, ncls o, nthr o, nvm o, nscr o, tmr o, err o))
+  map (fun o => (prints o, idle o, ncls o, nthr o, nvm o, nscr o, ntmr o, err o))
       (run [ OStart [IPrint 1; IWait 5; IPrint 2];
              OStart [IPrint 3; IWaitThread [IPrint 4; IWaitThread [IPrint 5; IReset; IPrint 6]; IPrint 7]; IPrint 8];
              OStart [IPrint 9; IWait 1; IPrint 10];
              OAdvance 1; OExecute ]) =
-  [ ([1], false, 1%nat, 1%nat, 1%nat, 1%nat, true, 0%nat);
-    ([3; 4; 5], true, 0%nat, 0%nat, 0%nat, 0%nat, false, 0%nat);
-    ([9], false, 1%nat, 1%nat, 1%nat, 1%nat, true, 0%nat);
-    ([], false, 1%nat, 1%nat, 1%nat, 1%nat, true, 0%nat);
-    ([10], true, 0%nat, 0%nat, 0%nat, 1%nat, false, 0%nat) ].
+  [ ([1], false, 1%nat, 1%nat, 1%nat, 1%nat, 1%nat, 0%nat);
+    ([3; 4; 5], true, 0%nat, 0%nat, 0%nat, 0%nat, 0%nat, 0%nat);
+    ([9], false, 1%nat, 1%nat, 1%nat, 1%nat, 1%nat, 0%nat);
+    ([], false, 1%nat, 1%nat, 1%nat, 1%nat, 1%nat, 0%nat);
+    ([10], true, 0%nat, 0%nat, 0%nat, 1%nat, 0%nat, 0%nat) ].
+Proof. vm_compute. reflexivity. Qed.
+
+(* a parent waits for its callee, the callee's instance is recompiled between two frames: both
+   instances of the script die (newest first: the parent is first made due, then destroyed), the
+   bystander script is untouched *)
+Example C13_recompile_example :
+  map (fun o => (prints o, ncls o, nthr o, nvm o, nscr o, ntmr o, err o))
+      (run [ OStart [IPrint 1; IWait 5; IPrint 2];
+             OStart [IPrint 3; IWaitThread [IPrint 4; IWait 3; IPrint 5]; IPrint 6];
+             ORecompile 1;
+             OAdvance 5; OExecute ]) =
+  [ ([1], 1%nat, 1%nat, 1%nat, 1%nat, 1%nat, 0%nat);
+    ([3; 4], 3%nat, 3%nat, 3%nat, 2%nat, 2%nat, 0%nat);
+    ([], 1%nat, 1%nat, 1%nat, 2%nat, 1%nat, 0%nat);
+    ([], 1%nat, 1%nat, 1%nat, 2%nat, 1%nat, 0%nat);
+    ([2], 0%nat, 0%nat, 0%nat, 2%nat, 0%nat, 0%nat) ].
+Proof. vm_compute. reflexivity. Qed.
+
+(* thread 0 stores a reference to itself and waits 5 ms; script 1 applies `wait 1` and then `wait 2`
+   to it: always ONE timer element; it resumes at 2 ms (after the second command), not at 5 *)
+Example C13_retime_example :
+  map (fun o => (prints o, nthr o, ntmr o, err o))
+      (run [ OStart [IStore 0; IPrint 1; IWait 5; IPrint 2];
+             OStart [IPrint 3; IXWait 0 1; IPrint 4; IXWait 0 2; IPrint 5];
+             OAdvance 1; OExecute; OAdvance 1; OExecute ]) =
+  [ ([1], 1%nat, 1%nat, 0%nat); ([3; 4; 5], 1%nat, 1%nat, 0%nat);
+    ([], 1%nat, 1%nat, 0%nat); ([], 1%nat, 1%nat, 0%nat);
+    ([], 1%nat, 1%nat, 0%nat); ([2], 0%nat, 0%nat, 0%nat) ].
 Proof. vm_compute. reflexivity. Qed.
